@@ -1,6 +1,10 @@
 (* Tie_Pattern.v — the functions translated from validator/capability.go
    (Gen_Pattern.v, regenerated on every run) equal the hand-written model,
-   for all inputs; in particular the translated slices never panic. *)
+   for all inputs; in particular the translated slices never panic.
+   The proofs are by a shape-agnostic tactic (case analysis on every string test that
+   occurs, slices justified by the suffix tests that guard them), so that a rewrite of the
+   source that keeps the function (reordered disjuncts, nested ifs, renamed variables)
+   still checks. *)
 From Ucanto Require Import Base GoSem Pattern.
 From UcantoGen Require Import Gen_Pattern.
 From Coq Require Import ZifyBool ZifyNat.
@@ -17,36 +21,48 @@ Proof.
   rewrite firstn_removelast. reflexivity.
 Qed.
 
+Ltac slice_fix :=
+  match goal with
+  | S : suffixb ?p ?s = true |- context [slice ?s 0 (Z.of_nat (length ?s) - 1)] =>
+    rewrite (slice_removelast s) by (pose proof (suffix_len _ _ S) as HL; cbn [length] in HL; lia)
+  end.
+
+Ltac split_test :=
+  match goal with
+  | |- context [beq ?a ?b] => let E := fresh "E" in destruct (beq a b) eqn:E
+  | |- context [suffixb ?a ?b] => let E := fresh "S" in destruct (suffixb a b) eqn:E
+  | |- context [prefixb ?a ?b] => let E := fresh "P" in destruct (prefixb a b) eqn:E
+  end.
+
+(* beq is symmetric: a source that writes `x == y` where the model writes `y == x` *)
+Lemma beq_sym_eq (a b : bstr) : beq a b = beq b a.
+Proof.
+  destruct (beq a b) eqn:E1, (beq b a) eqn:E2; try reflexivity.
+  - apply beq_eq in E1. subst. rewrite beq_refl in E2. discriminate.
+  - apply beq_eq in E2. subst. rewrite beq_refl in E1. discriminate.
+Qed.
+
+Ltac sym_fix :=
+  repeat match goal with
+  | H : beq ?a ?b = ?v |- context [beq ?b ?a] => rewrite (beq_sym_eq b a), H
+  end.
+
+Ltac tie_auto :=
+  gosem;
+  repeat (first [ progress cbn [bind orb andb negb] | progress sym_fix | slice_fix | split_test ]);
+  try reflexivity; try congruence.
+
 Theorem tie_ResolveAbility : forall pattern can,
   ResolveAbility pattern can = Ret (resolve_ability pattern can).
-Proof.
-  intros pattern can. unfold ResolveAbility, resolve_ability, star, slash_star. gosem.
-  destruct (beq pattern can); cbn [bind orb]; [reflexivity|].
-  destruct (beq pattern [42]); cbn [bind orb]; [reflexivity|].
-  destruct (suffixb [47; 42] pattern) eqn:S; cbn [bind andb]; [|reflexivity].
-  apply suffix_len in S. cbn [length] in S.
-  rewrite slice_removelast by lia. cbn [bind].
-  destruct (prefixb (removelast pattern) can); reflexivity.
-Qed.
+Proof. intros pattern can. unfold ResolveAbility, resolve_ability, star, slash_star. tie_auto. Qed.
 
 Theorem tie_ResolveResource : forall source uri,
   ResolveResource source uri = Ret (resolve_resource source uri).
-Proof.
-  intros source uri. unfold ResolveResource, resolve_resource, ucan_star. gosem.
-  destruct (beq source uri); cbn [bind orb]; [reflexivity|].
-  destruct (beq source [117; 99; 97; 110; 58; 42]); reflexivity.
-Qed.
+Proof. intros source uri. unfold ResolveResource, resolve_resource, ucan_star. tie_auto. Qed.
 
 Theorem tie_DefaultDerives : forall cwith dwith,
   DefaultDerives cwith dwith = Ret (default_derives cwith dwith).
-Proof.
-  intros cwith dwith. unfold DefaultDerives, default_derives, star. gosem.
-  destruct (suffixb [42] dwith) eqn:S; cbn [bind].
-  - apply suffix_len in S. cbn [length] in S.
-    rewrite slice_removelast by lia. cbn [bind].
-    destruct (prefixb (removelast dwith) cwith); reflexivity.
-  - destruct (beq dwith cwith); reflexivity.
-Qed.
+Proof. intros cwith dwith. unfold DefaultDerives, default_derives, star. tie_auto. Qed.
 Print Assumptions tie_ResolveAbility.
 Print Assumptions tie_ResolveResource.
 Print Assumptions tie_DefaultDerives.
